@@ -2,6 +2,7 @@ package main
 
 import (
 	"bytes"
+	"io"
 	"crypto/sha1"
 	"encoding/hex"
 	"encoding/json"
@@ -39,6 +40,65 @@ type plan struct {
 	Steps      []planStep  `json:"steps,omitempty"` // sequential interleaving
 	Concurrent [][]docOp   `json:"concurrent,omitempty"`
 	NDocs      int         `json:"ndocs"`
+	Origin     string      `json:"origin,omitempty"` // how the documents come into being: "" = New, "template", "opened"
+	OriginA    int         `json:"origin_a,omitempty"`
+}
+
+// originBase: a document with a chosen number of relationship-creating elements (headers, footers, lists, notes,
+// pictures), the common ancestor of the documents of a plan
+func originBase(a int) *document.Document {
+	b := document.New()
+	b.AddParagraph("Base {{name}}")
+	for j := 0; j < a%8; j++ {
+		switch j % 6 {
+		case 0:
+			b.AddHeader(document.HeaderFooterTypeDefault, "base header")
+		case 1:
+			b.AddFooter(document.HeaderFooterTypeDefault, "base footer")
+		case 2:
+			b.AddListItem("base item", &document.ListConfig{Type: document.ListTypeNumber})
+		case 3:
+			b.AddHeader(document.HeaderFooterTypeFirst, "first header")
+		case 4:
+			b.AddImageFromData(imageBytes("png", 3), "b.png", document.ImageFormatPNG, 4, 4, nil)
+		case 5:
+			b.AddFooter(document.HeaderFooterTypeEven, "even footer")
+		}
+	}
+	return b
+}
+
+// makeDocs: the documents of a plan. "template": all rendered from one template of one engine; "opened": all opened
+// from the same bytes; otherwise all new.
+func makeDocs(p *plan) []*document.Document {
+	docs := make([]*document.Document, p.NDocs)
+	switch p.Origin {
+	case "template":
+		te := document.NewTemplateEngine()
+		if _, err := te.LoadTemplateFromDocument("base", originBase(p.OriginA)); err == nil {
+			for i := range docs {
+				data := document.NewTemplateData()
+				data.SetVariable("name", "n")
+				if nd, err := te.RenderTemplateToDocument("base", data); err == nil && nd != nil {
+					docs[i] = nd
+				}
+			}
+		}
+	case "opened":
+		if raw, err := originBase(p.OriginA).ToBytes(); err == nil {
+			for i := range docs {
+				if nd, err := document.OpenFromMemory(io.NopCloser(bytes.NewReader(raw))); err == nil {
+					docs[i] = nd
+				}
+			}
+		}
+	}
+	for i := range docs {
+		if docs[i] == nil {
+			docs[i] = document.New()
+		}
+	}
+	return docs
 }
 
 var docOpKinds = []string{"para", "heading", "footnote", "endnote", "list", "image", "header", "margins", "style_edit", "style_add", "table", "title", "render", "toc", "removenote", "fromMarkdown", "bullet", "formatted"}
@@ -213,10 +273,10 @@ func runC07Child(cfg *runCfg) error {
 	if err := json.Unmarshal(raw, &p); err != nil {
 		return err
 	}
-	docs := make([]*document.Document, p.NDocs)
-	for i := range docs {
-		docs[i] = document.New()
+	if p.Origin != "" {
+		imageBytes("png", 3)
 	}
+	docs := makeDocs(&p)
 	if len(p.Concurrent) > 0 {
 		for _, h := range p.Concurrent { // fill the harness's own image cache before going concurrent
 			for _, op := range h {
@@ -302,8 +362,10 @@ func diffProj(a, b map[string]string) string {
 }
 
 type pairCase struct {
-	H1 []docOp `json:"h1"`
-	H2 []docOp `json:"h2"`
+	H1      []docOp `json:"h1"`
+	H2      []docOp `json:"h2"`
+	Origin  string  `json:"origin,omitempty"`
+	OriginA int     `json:"origin_a,omitempty"`
 }
 
 func runC07(cfg *runCfg) error {
@@ -315,7 +377,7 @@ func runC07(cfg *runCfg) error {
 		raceBin = ""
 	}
 	res.Extra["race_binary"] = raceBin != ""
-	res.Rule = "pairs of call histories (18 kinds of calls: content, notes incl. removal, lists, images, headers, page settings, in-place edits of predefined styles through the document's own style manager, custom styles, tables, properties, TOC, template rendering, creation through the Markdown converter) on two distinct documents; each pair runs in fresh processes: each history alone, both orders sequentially, a random interleaving, and concurrently in goroutines (under the race detector when available); the projection of each document (every part canonicalised, accessors) must equal its projection alone; non-trivial = both histories have at least 3 calls; distinct by hash of the pair"
+	res.Rule = "pairs of call histories (18 kinds of calls: content, notes incl. removal, lists, images, headers, page settings, in-place edits of predefined styles through the document's own style manager, custom styles, tables, properties, TOC, template rendering, creation through the Markdown converter) on two distinct documents - both new, both rendered from one template of one engine (whose base document carries 0-7 relationship-creating elements), or both opened from the same bytes; each pair runs in fresh processes: each history alone, both orders sequentially, a random interleaving, and concurrently in goroutines (under the race detector when available); the projection of each document (every part canonicalised, accessors) must equal its projection alone; non-trivial = both histories have at least 3 calls; distinct by hash of the pair"
 	dist := newDistinct()
 	type job struct {
 		ci   int
@@ -327,6 +389,13 @@ func runC07(cfg *runCfg) error {
 	for ci := 0; ci < cfg.n; ci++ {
 		cr := r.fork()
 		pc := pairCase{H1: genDocOps(cr, cr.rangeI(2, 9)), H2: genDocOps(cr, cr.rangeI(2, 9))}
+		switch o := cr.intn(20); {
+		case o < 7:
+			pc.Origin, pc.OriginA = "template", cr.intn(8)
+		case o < 10:
+			pc.Origin, pc.OriginA = "opened", cr.intn(8)
+		}
+		res.Histogram["origin:"+map[string]string{"": "new", "template": "rendered from one template", "opened": "opened from the same bytes"}[pc.Origin]]++
 		jobs = append(jobs, job{ci, pc, ci < nConc})
 		if len(pc.H1) >= 3 && len(pc.H2) >= 3 {
 			dist.add(pc)
@@ -349,7 +418,9 @@ func runC07(cfg *runCfg) error {
 			defer func() { <-sem }()
 			j := jobs[ji]
 			jr := newRng(cfg.seed*1000 + uint64(j.ci))
-			mk := func(name string, steps []planStep) plan { return plan{Name: name, Steps: steps, NDocs: 2} }
+			mk := func(name string, steps []planStep) plan {
+				return plan{Name: name, Steps: steps, NDocs: 2, Origin: j.pc.Origin, OriginA: j.pc.OriginA}
+			}
 			seq := func(d int, h []docOp) []planStep {
 				var s []planStep
 				for _, o := range h {
@@ -372,7 +443,7 @@ func runC07(cfg *runCfg) error {
 				mk("seq12", append(seq(0, j.pc.H1), seq(1, j.pc.H2)...)), mk("seq21", append(seq(1, j.pc.H2), seq(0, j.pc.H1)...)),
 				mk("interleaved", inter)}
 			if j.conc {
-				plans = append(plans, plan{Name: "concurrent", Concurrent: [][]docOp{j.pc.H1, j.pc.H2}, NDocs: 2})
+				plans = append(plans, plan{Name: "concurrent", Concurrent: [][]docOp{j.pc.H1, j.pc.H2}, NDocs: 2, Origin: j.pc.Origin, OriginA: j.pc.OriginA})
 			}
 			var base [2]map[string]string
 			flags := []string{}
